@@ -12,7 +12,7 @@ globals().update(
             # `defaulted-stop-frozen` surfaces through meaning_under_overrides and must not be reported a second time here)
             ("harness.agents.pass2_diff", 700, 4000, {"slice_equation", "consumers_agree", "alias_same_as_direct",
                                                       "fill_in_map_no_name_capture", "fill_in_map_same_meaning_and_fundamental"}),
-            ("harness.agents.emu_diff", 150, 1500, {"alias_same_as_direct", "kron_reference"}), ("harness.agents.c06_edge", 1500, 1500), ("harness.agents.c06_scale", 40, 72), ("harness.agents.c06_traps", 400, 400)
+            ("harness.agents.emu_diff", 150, 1500, {"alias_same_as_direct", "kron_reference"}), ("harness.agents.c06_edge", 1500, 1500), ("harness.agents.c06_scale", 40, 72), ("harness.agents.c06_traps", 400, 400), ("harness.agents.c06_deep", 120, 1200)
         ],
         trusted=[
             STD_TRUST,
